@@ -1,0 +1,69 @@
+//go:build verif
+// +build verif
+
+package main
+
+import (
+	"crypto/rand"
+	"errors"
+	"io/ioutil"
+	"os"
+	"sort"
+
+	"go.1password.io/spg"
+)
+
+// Compiled only with the "verif" build tag. When VERIF_TAPE names a file, the
+// process reads its "random" bytes from that file instead of the operating
+// system (an exhausted tape is a read error) and uses sorted alphabet and
+// word-list index orders, so that the command is a deterministic function of
+// its arguments, its files and the tape. Without VERIF_TAPE nothing changes.
+
+type verifTape struct {
+	data []byte
+	pos  int
+}
+
+func (t *verifTape) Read(p []byte) (int, error) {
+	if t.pos >= len(t.data) {
+		return 0, errors.New("verif tape exhausted")
+	}
+	n := copy(p, t.data[t.pos:])
+	t.pos += n
+	if c := os.Getenv("VERIF_TAPE_USED"); c != "" {
+		_ = ioutil.WriteFile(c, []byte(itoa(t.pos)), 0600)
+	}
+	return n, nil
+}
+
+func itoa(i int) string {
+	if i == 0 {
+		return "0"
+	}
+	s := ""
+	for i > 0 {
+		s = string(rune('0'+i%10)) + s
+		i /= 10
+	}
+	return s
+}
+
+func init() {
+	path := os.Getenv("VERIF_TAPE")
+	if path == "" {
+		return
+	}
+	data, err := ioutil.ReadFile(path)
+	if err != nil {
+		os.Stderr.WriteString("verif: cannot read VERIF_TAPE: " + err.Error() + "\n")
+		os.Exit(3)
+	}
+	rand.Reader = &verifTape{data: data}
+	sorted := func(in []string) []string {
+		out := append([]string(nil), in...)
+		sort.Strings(out)
+		return out
+	}
+	spg.VerifHooks.OrderChars = sorted
+	spg.VerifHooks.OrderWords = sorted
+}
